@@ -29,6 +29,8 @@ type trackState struct {
 	cells    map[*Cell]string
 	maps     map[*MapObj]string
 	readOnly map[*Cell]bool // must never be written (e.g. Full)
+	vector   []ReplayVal    // inputs of the path this log comes from (for native replay)
+	params   map[string]int
 }
 
 type ownRec struct {
